@@ -215,6 +215,7 @@ func findRoute(
 		}
 
 		// Remove selected backend from list to avoid retrying it
+		removed := false
 		for i, backend := range tryBackends {
 			normalizedBackend, err := netutil.Parse(backend, src.RemoteAddr().Network())
 			if err != nil {
@@ -236,7 +237,18 @@ func findRoute(
 
 			if normalizedAddr == selectedAddr {
 				tryBackends = append(tryBackends[:i], tryBackends[i+1:]...)
+				removed = true
 				break
+			}
+		}
+		if !removed {
+			// An address that does not parse cannot be matched in normalised form: drop the
+			// selected entry itself, or it would be handed out again and the attempt never ends.
+			for i, backend := range tryBackends {
+				if backend == backendAddr {
+					tryBackends = append(tryBackends[:i], tryBackends[i+1:]...)
+					break
+				}
 			}
 		}
 
